@@ -24,11 +24,11 @@ CHECKS = {
  "C06": ("structure-aware mutation fuzzing (rapid) + native coverage-guided go fuzz + depth grid in child processes",
          "Mutated valid encodings, hostile lengths and random bytes are decoded into every type; any panic, hang or out-of-proportion allocation is a violation, and accepted messages must survive Size/Marshal/Equal/Range/String/JSON. Depth arm: nested payloads against RecursionLimit, differential with dynamicpb, in child processes. Thorough adds go test -fuzz on all cores.",
          "Allocation bound is a calibrated linear budget; hangs use a generous watchdog and are re-run before being reported.", "4/C06"),
- "C07": ("property-based scribble test (rapid): mutate buffers after the call and compare deep snapshots",
-         "After Unmarshal the input is overwritten and the message re-read; after Marshal the message's byte slices are overwritten and the output re-read (and vice versa); read-only calls are bracketed by deep structural snapshots of the Go struct (nil vs empty, slice pointers, lengths, capacities).",
+ "C07": ("property-based scribble test (rapid): mutate buffers after the call and compare deep snapshots; inputs decoded from read-only memory mappings",
+         "Valid and mutated encodings are decoded from a page range mapped read-only, so that any store into the input faults, even one undone before returning. After Unmarshal the input is overwritten and the message re-read; after Marshal the message's byte slices are overwritten and the output re-read (and vice versa); read-only calls are bracketed by deep structural snapshots of the Go struct (nil vs empty, slice pointers, lengths, capacities).",
          "Snapshot ignores state/sizeCache/atomic bookkeeping of protobuf-go.", "4/C07"),
  "C08": ("model-based stateful testing: three-way lock-step state machine (rapid t.Repeat-style) + exhaustive short sequences",
-         "Operation histories over Message/List/Map handles are applied in lock step to the generated message, to dynamicpb and to protoimpl reflection over a second struct; after every step results, panics and whole-message state must agree whenever the two references agree; explicit oneof/Range/Mutable invariants are asserted directly. A small all-shapes schema is enumerated exhaustively up to a bound.",
+         "Operation histories over Message/List/Map handles are applied in lock step to the generated message, to dynamicpb and to protoimpl reflection over a second struct; after every step results, panics and whole-message state must agree whenever the two references agree; explicit oneof/Range/Mutable invariants are asserted directly. A small all-shapes schema is enumerated exhaustively up to a bound. Further generated histories: lend / borrow of composite values between two messages, lists grown past several capacity doublings and cut again, operations addressed with the descriptors of an equal copy of the file.",
          "Only behaviour on which dynamicpb and protoimpl agree is asserted; stale handles are invalidated conservatively.", "4/C08"),
  "C09": ("finite matrix enumeration (source of nil x field x operation) + rapid-drawn parents",
          "Every way an empty read-only message/list/map can arise is crossed with every field and every read operation and library call; results must equal the reference's zero message and mutations must panic.",
@@ -37,7 +37,7 @@ CHECKS = {
          "proto.Equal/Clone/Merge/Reset/CheckInitialized and protojson/prototext marshal+unmarshal are run on generated messages and on dynamicpb messages holding the same values; answers must agree (JSON/text compared semantically).",
          "protojson/prototext output is unstable by design, so it is compared after parsing.", "4/C10"),
  "C11": ("randomised concurrent read schedules under the Go race detector (rapid-generated op lists)",
-         "Shared messages are read concurrently by 2-16 goroutines executing drawn sequences of read-only operations with injected yields; the race detector must stay silent and every goroutine must see the sequential results.",
+         "Shared messages (random values, values nested thousands of levels, very large values, Any fields packing generated types, nil-held empty bytes) are read concurrently by 2-48 goroutines executing drawn sequences of read-only operations with injected yields; the race detector must stay silent and every goroutine must see the sequential results.",
          "Schedules are sampled; the happens-before race detector reports a hidden write whenever two goroutines execute it unsynchronised, independent of timing.", "4/C11"),
  "C12": ("generated-program testing: schema matrix + rapid-drawn random schemas through the real plugin, compile, smoke engines",
          "The working-tree plugin binary is run on a fixed kind x shape x tag x name-collision corpus and on random proto3 schemas per seed with several parameter strings; it must answer without error, the output must compile (Go compiler as oracle) and the generated types must pass a smoke pass of the C01-C10/C14/C19 engines. Error/none-output requirements (unknown feature, proto2, unrequested files) are asserted.",
@@ -49,11 +49,11 @@ CHECKS = {
          "Streams with unknown records of all wire types (incl. nested groups) at every node are decoded; every node's unknown set must equal the reference's byte for byte, contain no known field number, be re-emitted after the known fields, and vanish everywhere under DiscardUnknown with nothing else changed; SetUnknown/GetUnknown round trip.",
          "Reference = dynamicpb raw unknown bytes; unknown tags are kept minimal because protobuf-go's table decoder re-encodes them inside nested well-known types.", "4/C14"),
  "C15": ("exhaustive boundary enumeration + random 64-bit search against protowire",
-         "Sov/Soz vs protowire sizes on every 2^k boundary, millions of random values and (thorough) the whole 32-bit range; EncodeVarint with canary buffers at every offset; Skip vs protowire.ConsumeField on generated and mutated records.",
+         "Sov/Soz vs protowire sizes on every 2^k boundary, millions of random values and (thorough) the whole 32-bit range; EncodeVarint with canary buffers at every offset; Skip vs protowire.ConsumeField on generated and mutated records, padded tags, unterminated varints, groups nested around the recursion limit and thousands of sibling groups.",
          "protowire is the reference.", "4/C15"),
  "C16": ("property-based testing of anyutil over messages, URL grammar and resolver configurations (rapid)",
-         "Pack: URL and value exact; Unpack through both resolver paths agree; hostile URLs/values/resolvers give (msg,nil) xor (nil,err), never a panic; failed pack leaves dst untouched.",
-         "nil *anypb.Any is outside the domain.", "4/C16"),
+         "Pack: URL and value exact (also for sources with unset required fields under AllowPartial, sources that are or hold the destination, messages nested 1500 levels); Unpack through ten resolver combinations agrees; hostile URLs/values/resolvers give (msg,nil) xor (nil,err), never a panic; failed pack leaves dst untouched; in sequences of packs nothing produced earlier changes.",
+         "dynamicpb / anypb behaviour on an equal but separate pair is the reference for aliasing cases.", "4/C16"),
  "C17": ("property-based testing against exact math/big arithmetic (rapid, boundary-biased)",
          "Add/AddStd/Compare are compared with big-integer nanosecond arithmetic over the valid ranges with every carry/borrow edge; overflow must panic, never wrap.",
          "None beyond math/big.", "4/C17"),
@@ -105,8 +105,7 @@ def main():
         "checks": checks,
         "notes": "Technique family: property-based testing and fuzzing (rapid v1.3.0, go test -fuzz). Exit 0 = held on everything explored, 1 = VIOLATION, 2 = inconclusive/infrastructure. known_findings.json lists recorded and fixed defects.",
     }
-    if na:
-        m["not_applicable"] = na
+    m["not_applicable"] = na  # every listed property is claimed: the list is empty
     with open(os.path.join(HERE, "MANIFEST.json"), "w") as f:
         json.dump(m, f, indent=1)
         f.write("\n")
